@@ -4,11 +4,14 @@
 -/
 import UnifexModel.Driver.Entry
 import UnifexModel.Driver.Entries.StopSource
+import UnifexModel.Driver.Entries.Sched
 
 namespace Unifex.Driver
 
 def table : List ModelEntries :=
   [ Entries.stopsource
+  , Entries.eventloop
+  , Entries.atomicqueue
   ]
 
 def lookup (m c : String) : Option Entry :=
